@@ -243,7 +243,10 @@ def evalCase (prop : String) (c : CaseIn) : Verdict := Id.run do
         if !bad.isEmpty then
           -- C07: growing past a pending SetLen (finding 1) is a live-view defect only; it never
           -- reaches the durable image, so it explains nothing there
-          let ts := if prop == "C07" then ts.filter (fun t => t.1 != 1) else ts
+          -- (the same holds for finding 6: two pending renames are flushed in order by sync_dir)
+          -- finding 11 is a durability defect only (the live view is right)
+          let ts := if prop == "C07" then ts.filter (fun t => t.1 != 1 && t.1 != 6)
+                    else ts.filter (fun t => t.1 != 11)
           let pat := match explain ts bad with
             | some n => findingId prop n
             | none => "none"
